@@ -409,5 +409,123 @@ theorem lookupScore_D {bg : List Rat} (hbg : ∀ b ∈ bg, 0 ≤ b) {im : List (
         rw [hall lo (by omega), hall hi hhi] at hstrict
         exact lt_irrefl _ hstrict
 
+/-! ### one refinement step, in terms of the exact score `S` -/
+
+/-- `P(S = u)` -/
+def pointMass (bg : List Rat) (rows : List (List Rat)) (u : Rat) : Rat :=
+  expect bg rows (fun s => if s = u then 1 else 0)
+
+theorem im_length (g : Rat) (rows : List (List Rat)) : (recompute rows g).im.length = rows.length := by
+  simp [recompute]
+
+theorem mul_div_self {g : Rat} (hg : 0 < g) (S : Rat) : S / g * g = S := by
+  field_simp
+
+theorem ite_le_ite {A B : Prop} [Decidable A] [Decidable B] (h : A → B) :
+    (if A then (1 : Rat) else 0) ≤ if B then 1 else 0 := by
+  by_cases a : A
+  · simp [a, h a]
+  · by_cases b : B <;> simp [a, b]
+
+/-- **C13, one step.**  For a sound window, `lookup_score` does not panic and the threshold
+    `t = (alpha - Σoffsets)·g` it yields satisfies, with `d = (M+2)g`:  `P(S ≥ t+d) ≤ p`, and
+    `P(S ≥ u-d) ≥ p` for every attainable score `u < t-d`.  If the step has not converged the
+    integer tails bracket `p` within `error_max` (used to show the next window sound). -/
+theorem lookupScore_step {bg : List Rat} (hbg : ∀ b ∈ bg, 0 ≤ b) (rows : List (List Rat))
+    (hlen : 2 ≤ rows.length) {g : Rat} (hg : 0 < g) {p : Rat} (hp : 0 < p) {mn mx : Int}
+    (hs : Sound bg (recompute rows g).im p mn mx) :
+    ∃ alpha a b, lookupScore (recompute rows g) bg p mn mx = some (alpha, a, b) ∧
+      tail bg rows (((alpha - (recompute rows g).offsets.sum : Int) : Rat) * g
+        + (rows.length + 2) * g) ≤ p ∧
+      (∀ u, 0 < pointMass bg rows u →
+        u < ((alpha - (recompute rows g).offsets.sum : Int) : Rat) * g - (rows.length + 2) * g →
+        p ≤ tail bg rows (u - (rows.length + 2) * g)) ∧
+      (a ≠ b → tailD bg (recompute rows g).im alpha ≤ p ∧
+        ∃ ae, ((alpha - ae : Int) : Rat) ≤ errorMax g rows ∧ p ≤ tailD bg (recompute rows g).im ae) := by
+  set rc := recompute rows g with hrc
+  have him : NonnegRows rc.im := nonneg_im g rows
+  have hlen' : 2 ≤ rc.im.length := by rw [hrc, im_length]; exact hlen
+  obtain ⟨hE0, hE1⟩ := errorMax_bounds g rows
+  set E := errorMax g rows with hE
+  set O := rc.offsets.sum with hO
+  have hM : ((rows.length - 1 : Nat) : Rat) = (rows.length : Rat) - 1 := by
+    rw [Nat.cast_sub (by omega)]; simp
+  rw [hM] at hE1
+  obtain ⟨alpha, a, b, hres, hU, hL, hC⟩ := lookupScore_D hbg him hlen' hp E hs
+  refine ⟨alpha, a, b, hres, ?_, ?_, hC⟩
+  · -- upper bracket
+    refine le_trans ?_ hU
+    rw [tail, ← expect_pair_fst bg g rows, tailD, ← expect_pair_snd bg g rows]
+    apply expect_mono_reach hbg
+    rintro ⟨S, D⟩ hreach
+    obtain ⟨_, r2⟩ : ((D : Rat) ≤ S / g + (O : Rat)) ∧ S / g + (O : Rat) < (D : Rat) + E + 1 :=
+      rounding g rows hreach
+    apply ite_le_ite
+    intro hS
+    have h1 : ((alpha - O : Int) : Rat) + (rows.length + 2) ≤ S / g := by
+      rw [le_div_iff₀ hg]; linarith
+    have h2 : ((alpha + 1 : Int) : Rat) < ((D + 1 : Int) : Rat) := by
+      push_cast at h1 ⊢; linarith
+    have : alpha + 1 < D + 1 := by exact_mod_cast h2
+    show alpha + 1 ≤ D
+    omega
+  · -- lower bracket
+    intro u hu hut
+    set Xu : Rat := u / g + (O : Rat) with hXu
+    set lo : Int := ⌊Xu - E - 1⌋ + 1 with hlo
+    set hi : Int := ⌊Xu⌋ + 1 with hhi
+    have hlohi : lo ≤ hi := by
+      have : ⌊Xu - E - 1⌋ ≤ ⌊Xu⌋ := Int.floor_le_floor (by linarith)
+      omega
+    -- P(S = u) + P(D ≥ hi) ≤ P(D ≥ lo)
+    have hsum : pointMass bg rows u + tailD bg rc.im hi ≤ tailD bg rc.im lo := by
+      rw [pointMass, ← expect_pair_fst bg g rows, tailD, ← expect_pair_snd bg g rows, ← expect_add,
+        tailD, ← expect_pair_snd bg g rows]
+      apply expect_mono_reach hbg
+      rintro ⟨S, D⟩ hreach
+      obtain ⟨r1, r2⟩ : ((D : Rat) ≤ S / g + (O : Rat)) ∧ S / g + (O : Rat) < (D : Rat) + E + 1 :=
+        rounding g rows hreach
+      show ((if S = u then (1 : Rat) else 0) + if hi ≤ D then 1 else 0) ≤ if lo ≤ D then 1 else 0
+      by_cases hSu : S = u
+      · subst hSu
+        have h1 : D ≤ ⌊Xu⌋ := Int.le_floor.2 r1
+        have h2 : ⌊Xu - E - 1⌋ < D := Int.floor_lt.2 (by linarith)
+        have h3 : ¬ hi ≤ D := by omega
+        have h4 : lo ≤ D := by omega
+        simp [h3, h4]
+      · by_cases h3 : hi ≤ D
+        · have h4 : lo ≤ D := by omega
+          simp [hSu, h3, h4]
+        · by_cases h4 : lo ≤ D <;> simp [hSu, h3, h4]
+    have hstrict : tailD bg rc.im hi < tailD bg rc.im lo := by linarith
+    have hhia : hi ≤ alpha := by
+      have h1 : u / g < ((alpha - O : Int) : Rat) - (rows.length + 2) := by
+        rw [div_lt_iff₀ hg]; linarith
+      have h2 : Xu < (alpha : Rat) - 2 := by
+        rw [hXu]; push_cast at h1
+        have : (0 : Rat) ≤ rows.length := Nat.cast_nonneg _
+        linarith
+      have h3 : ((⌊Xu⌋ : Int) : Rat) < ((alpha - 2 : Int) : Rat) := by
+        push_cast; exact lt_of_le_of_lt (Int.floor_le Xu) h2
+      have : ⌊Xu⌋ < alpha - 2 := by exact_mod_cast h3
+      omega
+    refine le_trans (hL lo hi hlohi hhia hstrict) ?_
+    rw [tail, ← expect_pair_fst bg g rows, tailD, ← expect_pair_snd bg g rows]
+    apply expect_mono_reach hbg
+    rintro ⟨S, D⟩ hreach
+    obtain ⟨r1, _⟩ : ((D : Rat) ≤ S / g + (O : Rat)) ∧ S / g + (O : Rat) < (D : Rat) + E + 1 :=
+      rounding g rows hreach
+    apply ite_le_ite
+    intro hD
+    have hD' : lo ≤ D := hD
+    have h1 : Xu - E - 1 < (lo : Rat) := by
+      rw [hlo]; push_cast; exact Int.lt_floor_add_one _
+    have h2 : ((lo : Int) : Rat) ≤ (D : Rat) := by exact_mod_cast hD'
+    have h3 : u / g - (rows.length + 2) ≤ S / g := by
+      rw [hXu] at h1; linarith
+    have := mul_le_mul_of_nonneg_right h3 (le_of_lt hg)
+    rw [mul_div_self hg, sub_mul, mul_div_self hg] at this
+    exact this
+
 end C13
 end LMV
